@@ -250,7 +250,9 @@ def gen_mans(rng, n, epoch):
 
 
 UD_KEYS = ["FOO", "MASS_KG", "OPERATOR", "X1", "REVISION", "SOURCE_ID", "ABC_DEF_2", "Q"]
-UD_VALS = ["bar", "12.5", "ops team 3", "a-b_c", "0", "2021-03-04T00:00:00", "TRUE", "x y z", "v1.2 (draft)"]
+UD_VALS = ["bar", "12.5", "ops team 3", "a-b_c", "0", "2021-03-04T00:00:00", "TRUE", "x y z", "v1.2 (draft)",
+           # free text is free text: brackets, equal signs, markup characters, non-ASCII letters
+           "mass [dry] 100", "a[1]", "k = v", "<b> & </b>", "5 % 'approx' \"q\"", "caf\u00e9 \u00b5m"]
 
 
 def gen_user(rng, n):
